@@ -2,5 +2,6 @@
 # builds the Coq development (full .vo build) and the extracted model driver; offline.
 set -e
 cd "$(dirname "$0")"
+python3 tools/genbuild.py >/dev/null
 (cd coq && coq_makefile -f _CoqProject -o Makefile >/dev/null && timeout 3000 make -j16)
 (cd ocaml && timeout 600 make)
